@@ -53,6 +53,7 @@ fn emit_choice(
 
         if choice.has_choice_only_content
             && !choice.has_start_content
+            && choice.body_divert_is_inline
             && matches!(choice.body.as_slice(), [Node::Divert(_)])
         {
             branch_nodes.extend(tokenize_inline_content(&format!(" {selected_text}"))?);
